@@ -943,6 +943,10 @@ class TelnetTransport(Telnet, ProtocolTransportMixin):
     def write(self, data):
         ProtocolTransportMixin.write(self, data.replace(b"\xff", b"\xff\xff"))
 
+    def writeSequence(self, seq):
+        # Application data needs the same escaping whichever way it is written.
+        self.write(b"".join(seq))
+
 
 class TelnetBootstrapProtocol(TelnetProtocol, ProtocolTransportMixin):
     protocol = None
